@@ -18,6 +18,9 @@
 //	    through, so behind it control reaches the end of the loop body, which is what `continue` does; in a `for`
 //	    loop the post statement runs in both cases).  Not inside nested loops, `select` or function literals; an
 //	    `if c { continue }` without `else` is left to N3.
+//	N6  a package-level `const name = <basic literal>` (string, character or number; no iota, no type) that the pinned
+//	    source does not declare (table `baselineGlobals`) is replaced by its value wherever the name is used and the
+//	    function does not declare the name itself: constants are values.
 package main
 
 import (
@@ -327,6 +330,55 @@ func (nz *normalizer) nested(st ast.Stmt) {
 // normalizeForms is the pre-pass.
 func normalizeForms(files []*ast.File) []string {
 	var log []string
+	// N6: new literal constants
+	consts := map[string]*ast.BasicLit{}
+	for _, f := range files {
+		for _, d := range f.Decls {
+			gd, ok := d.(*ast.GenDecl)
+			if !ok || gd.Tok != token.CONST {
+				continue
+			}
+			for _, sp := range gd.Specs {
+				vs := sp.(*ast.ValueSpec)
+				if vs.Type != nil || len(vs.Names) != len(vs.Values) {
+					continue
+				}
+				for i, nm := range vs.Names {
+					if lit, ok := vs.Values[i].(*ast.BasicLit); ok && !baselineGlobals[nm.Name] && nm.Name != "_" {
+						consts[nm.Name] = lit
+					}
+				}
+			}
+		}
+	}
+	if len(consts) > 0 {
+		for _, f := range files {
+			for _, d := range f.Decls {
+				fd, ok := d.(*ast.FuncDecl)
+				if !ok || fd.Body == nil {
+					continue
+				}
+				own := map[string]bool{}
+				for _, n := range declaredLocals(fd.Body.List) {
+					own[n] = true
+				}
+				for _, p := range fd.Type.Params.List {
+					for _, n := range p.Names {
+						own[n.Name] = true
+					}
+				}
+				mapExprs(reflect.ValueOf(fd.Body), func(e ast.Expr) ast.Expr {
+					if id, ok := e.(*ast.Ident); ok && !own[id.Name] {
+						if lit, ok := consts[id.Name]; ok {
+							log = append(log, "N6 "+fd.Name.Name+": "+id.Name)
+							return &ast.BasicLit{ValuePos: id.Pos(), Kind: lit.Kind, Value: lit.Value}
+						}
+					}
+					return e
+				})
+			}
+		}
+	}
 	for _, f := range files {
 		for _, d := range f.Decls {
 			fd, ok := d.(*ast.FuncDecl)
